@@ -30,6 +30,10 @@ def _jobs(n_seeds, base=0):
                 # stage-relative kill (located by a probe run inside the job)
                 a["fault"] = {"kind": "kill", "stage": rng.choice(["collect", "construct", "merge"]), "frac": round(rng.random(), 3),
                               "phase": rng.choice(["before", "after"])}
+            if i % 8 in (2, 4):
+                # SIGINT instead of SIGKILL: the unwinding (finally blocks, destructors, exit handlers) is scheduled as well
+                a["fault"]["kind"] = "interrupt"
+                a["fault"]["phase"] = "before"
             jobs.append((cell["hashseed"], "scenarios:crash_resume", a))
         if i % 3 == 0:
             from simkit.checks import c20
